@@ -14,6 +14,7 @@ system; the implementation is observed on the schedules the harness provokes.
 -/
 import GoNfsd.Model.Locks
 import GoNfsd.Lemmas.Serial
+import GoNfsd.Gen.Skeleton
 
 namespace GoNfsd.Props.C03
 open GoNfsd.Model.Locks
@@ -149,5 +150,22 @@ example :
   · intro t; by_cases h1 : t = 1 <;> by_cases h2 : t = 2 <;> simp [h1, h2]
 
 end serial
+
+/-! ### what a lock protects is fetched under the lock (regenerated from package fstxn) -/
+
+/-- In every function of `fstxn` the inode's cache slot is looked up only while the inode's lock
+    is held (`LockInode`: `Acquire` first, `LookupSlot` second; `forgetInodes`: called by `Abort`
+    before the locks are given back), so the object a transaction reads and mutates under the lock
+    is THE object every other transaction on that inode uses — whatever the cache evicts while a
+    request waits.  `Gen.Skeleton.slotUses` is regenerated from fstxn/fstxn.go and fstxn/commit.go
+    on every run. -/
+theorem slots_are_fetched_under_the_lock :
+    ∀ f ∈ GoNfsd.Gen.Skeleton.slotUses, GoNfsd.Model.Skeleton.slotCheck f = true := by decide
+
+/-- the rule bites: the order of the seeded change C03i (slot first, lock second) is refused, and
+    the table is not empty -/
+example : GoNfsd.Model.Skeleton.slotCheck ("LockInode", [(0, "LookupSlot"), (0, "Acquire")]) = false := by decide
+example : GoNfsd.Model.Skeleton.slotCheck ("Abort", [(1, "releaseInodes"), (1, "forgetInodes")]) = false := by decide
+example : ("LockInode", [(0, "Acquire"), (0, "LookupSlot")]) ∈ GoNfsd.Gen.Skeleton.slotUses := by decide
 
 end GoNfsd.Props.C03
